@@ -347,6 +347,12 @@ func aliasCase(rep *Report, arena *guardArena, s *glue.Subject, d MD, idx int) {
 			rep.Count("C07", "subjects-with-empty-allocated-containers", 1)
 		}
 	}
+	if idx%4 == 1 {
+		// struct-level state: nil message pointers as list elements / map values (read as empty messages)
+		if n := nilOutMessages(reflect.ValueOf(subj), r, 0); n > 0 {
+			rep.Count("C07", "subjects-with-nil-elements", 1)
+		}
+	}
 	other := BuildStruct(s.Zero, g.Msg(d, 0))
 	for _, op := range roOps {
 		before := Fingerprint(subj)
@@ -404,4 +410,50 @@ func aliasCase(rep *Report, arena *guardArena, s *glue.Subject, d MD, idx int) {
 		rep.Violate("C07", "alias/marshal-output-aliases-message", tn, oc.name+": changing the message's byte slices changed the bytes returned earlier", rc)
 	}
 	rep.Count("C07", "output-alias-checks/"+oc.name, 1)
+}
+
+// nilOutMessages sets about half of the message-typed list elements and map
+// values to nil pointers; returns how many were changed.
+func nilOutMessages(rv reflect.Value, r *rand.Rand, depth int) int {
+	if depth > 100 {
+		return 0
+	}
+	n := 0
+	switch rv.Kind() {
+	case reflect.Ptr, reflect.Interface:
+		if !rv.IsNil() {
+			n += nilOutMessages(rv.Elem(), r, depth+1)
+		}
+	case reflect.Struct:
+		t := rv.Type()
+		for i := 0; i < rv.NumField(); i++ {
+			if t.Field(i).PkgPath != "" {
+				continue
+			}
+			n += nilOutMessages(rv.Field(i), r, depth+1)
+		}
+	case reflect.Slice:
+		if rv.Type().Elem().Kind() == reflect.Ptr && rv.Type().Elem().Elem().Kind() == reflect.Struct {
+			for i := 0; i < rv.Len(); i++ {
+				if r.Intn(2) == 0 {
+					rv.Index(i).Set(reflect.Zero(rv.Type().Elem()))
+					n++
+				} else {
+					n += nilOutMessages(rv.Index(i), r, depth+1)
+				}
+			}
+		}
+	case reflect.Map:
+		if rv.Type().Elem().Kind() == reflect.Ptr && rv.Type().Elem().Elem().Kind() == reflect.Struct {
+			for _, k := range rv.MapKeys() {
+				if r.Intn(2) == 0 {
+					rv.SetMapIndex(k, reflect.Zero(rv.Type().Elem()))
+					n++
+				} else {
+					n += nilOutMessages(rv.MapIndex(k), r, depth+1)
+				}
+			}
+		}
+	}
+	return n
 }
